@@ -169,6 +169,17 @@ CLAIMED = {
         "abstract evaluation with guard-derived sign reasoning per leaf; structural order rules over the ast",
         "other",
     ),
+    "C06": (
+        "Decides one month-step for all symbolic inputs: end = start + additive - (deaths + retirements) - slaughter applied, "
+        "then - (starvation deaths + healthy + starving home-kill), with zero clamps only under guards that established "
+        "negativity; slaughter applied is 0 / herd-target / allocation, >= 0, <= allocation, never below target; each ledger "
+        "term is the value recorded that month; dairy retirements + surviving male calves = animals added to the meat herd; "
+        "slaughter rate = min(need, remaining hours)/hours-per-head, budget = class baseline capacity recomputed monthly, reduced "
+        "by what was applied and asserted >= 0. The 120-month trajectory and data-dependent signs are NOT decided.",
+        "Target size, allocated rate >= 0; hours per head > 0. " + TRUST,
+        "abstract evaluation with guard-derived reasoning per leaf; def-use/statement-order rules over the month loop",
+        "other",
+    ),
 }
 
 NOT_APPLICABLE = {
